@@ -140,13 +140,15 @@ def _register_content_range_parse(reg):
     CR = reg.models["ContentRange"]
     reg.spec("tokenish(u)", "len(u) > 0 and re_in(u, '[A-Za-z0-9_.-]+')")
     reg.contract(
-        "werkzeug/http.py:parse_content_range_header", prop="C06,C07", params={"value": "Optional[str]", "on_update": "none"},
+        "werkzeug/http.py:parse_content_range_header", prop="C06,C07,C16", params={"value": "Optional[str]", "on_update": "Optional[opaque:callback]"},
         modifies=[], returns="Optional[ContentRange]",
         inline_callees=["werkzeug/datastructures/range.py:ContentRange.set"],
         ensures=[
             "implies(value is None, result is None)",
             # only satisfiable, well-ordered ranges come out
             "result is None or valid_range(result._start, result._stop, result._length)",
+            # C16: every view handed out is live -- it carries the caller's write-back callback, in the `*/N` form too
+            "result is None or result.on_update == on_update",
             # (the inverse law against ContentRange.to_header -- str(int) round trips inside split / partition pieces --
             #  was tried as a clause with ghost parameters: both solvers need more than 20 minutes; bounded tier)
         ],
